@@ -248,7 +248,12 @@ func (r Rect) CapBound() Cap {
 	// rectangles that are larger than 180 degrees, we punt and always return a
 	// bounding cap centered at one of the two poles.
 	if math.Remainder(r.Lng.Hi-r.Lng.Lo, 2*math.Pi) >= 0 && r.Lng.Hi-r.Lng.Lo < 2*math.Pi {
-		midCap := CapFromPoint(PointFromLatLng(r.Center())).AddPoint(PointFromLatLng(r.Lo())).AddPoint(PointFromLatLng(r.Hi()))
+		// The four vertices are pairwise symmetric about the centre meridian, but
+		// only up to rounding: add all of them, not just one of each pair.
+		midCap := CapFromPoint(PointFromLatLng(r.Center()))
+		for k := 0; k < 4; k++ {
+			midCap = midCap.AddPoint(PointFromLatLng(r.Vertex(k)))
+		}
 		if midCap.Height() < poleCap.Height() {
 			return midCap
 		}
